@@ -20,7 +20,8 @@ MANIFEST = dict(
          "fraction of equal positions within the empirical-Bernstein radius (delta=1e-9) of J_P and the mean squared error "
          "below J_P(1-J_P)/m; (ii) single-set law P(sig[p]=d) = w_d/sum(w) per (position, item) within a Hoeffding radius, the "
          "placeholder never; (iii) the primitive law: w*T[p] of measured single-entry tables against Exp(ln(m/(m-1))) "
-         "(variants 3/3a/3a-Sha) resp. Exp(1/m) (variant 2) by the Dvoretzky-Kiefer-Wolfowitz bound.",
+         "(variants 3/3a/3a-Sha) resp. Exp(1/m) (variant 2) by the Dvoretzky-Kiefer-Wolfowitz bound."
+         " Variant 2 cells also run both sets through one object reused with reset.",
     design_ref="DESIGN.md section 2.6 and section 4, C01",
     note="statistical test: effects below the radii are invisible (a rate error at m >= 16 is, but it is immaterial there); "
          "false-alarm probability <= 1e-9 per cell; trusted: TLC for the oracle on small vectors, the driver's float formula elsewhere",
